@@ -157,6 +157,18 @@ pub fn run_desc(out: &mut Out, seed: u64, n: u64) {
         emit_tss(out, p, d);
     }
     emit_tss(out, &TSS as *const _ as u64, catch(|| Descriptor::tss_segment(&TSS)));
+    // the descriptor depends on the address of the TSS only, not on what the TSS contains
+    for (i, iomap) in [0u16, 0x68, 0xffff, 0x1234, 0x67, 0x2068].into_iter().enumerate() {
+        let mut t = TaskStateSegment::new();
+        t.iomap_base = iomap;
+        for k in 0..7 {
+            t.interrupt_stack_table[k] = x86_64::VirtAddr::new_truncate(r.next().wrapping_mul(i as u64 + 1));
+        }
+        t.privilege_stack_table[0] = x86_64::VirtAddr::new_truncate(r.next());
+        let t: &'static TaskStateSegment = Box::leak(Box::new(t));
+        emit_tss(out, t as *const _ as u64, catch(|| Descriptor::tss_segment(t)));
+        emit_tss(out, t as *const _ as u64, catch(|| unsafe { Descriptor::tss_segment_unchecked(t) }));
+    }
     // the predefined descriptors and flag presets
     let pre = |out: &mut Out, name: &str, d: Descriptor| {
         let (k, lo) = match d {
